@@ -958,7 +958,7 @@ func main() {
 		if a.Tier == "thorough" {
 			g.maxN = 10
 		}
-		for run.NOps < a.N {
+		for run.NOps < a.N && !run.Enough() {
 			g.episode()
 		}
 	}
